@@ -49,6 +49,8 @@ def pairs(ctx, n):
     rng = ctx.rng
     for _ in range(n):
         case = core.gen_election(rng, btypes=("app",), m_lo=1, m_hi=6)
+        if rng.random() < 0.25:
+            case = core.gen_big_election(rng)
         cfg = rulegen.gen_rule_cfg(rng, case, rules=("phragmen",), allow_refuse=False)
         if not cfg["res"] and len(case.projects) > 5:
             cfg["res"] = True
